@@ -28,6 +28,7 @@ from .alg import (
     fresh,
     isym,
     le,
+    lt,
     sfun,
     ssym,
     val_eq,
@@ -442,6 +443,30 @@ def m_unwrap_or(I, a, e, ci):
     raise Unanalysable(f"unwrap_or on {v!r}")
 
 
+@model("std::mem::take", places=(0,))
+def m_take_default(I, a, e, ci):
+    old = I.deref(a[0].get())
+    if isinstance(old, Vec):
+        a[0].set(Vec([]))
+    elif isinstance(old, Enum) and old.variant in ("Some", "None"):
+        a[0].set(Enum("Option", "None", []))
+    elif isinstance(old, IntV):
+        a[0].set(IntV(0))
+    elif isinstance(old, Sc):
+        a[0].set(Sc(0))
+    else:
+        raise Unanalysable(f"mem::take of {old!r}")
+    return old
+
+
+@model("std::iter::Iterator::unzip")
+def m_unzip(I, a, e, ci):
+    it = I.to_iter(a[0])
+    if it.vec is None:
+        raise Unanalysable("unzip of an unbounded iterator")
+    return Tup([it.vec.map(lambda t: t.items[0]), it.vec.map(lambda t: t.items[1])])
+
+
 @model("std::mem::swap", places=(0, 1))
 def m_swap(I, a, e, ci):
     x, y = I.deref(a[0].get()), I.deref(a[1].get())
@@ -676,9 +701,20 @@ def m_rev(I, a, e, ci):
 @model("std::iter::Iterator::chain")
 def m_chain(I, a, e, ci):
     x, y = I.to_iter(a[0]), I.to_iter(a[1])
+    if x.vec is not None and y.vec is None:
+        # finite prefix followed by an unbounded tail
+        pre, inf = x.vec, y.infinite
+        ln = pre.length()
+        return IterV(None, infinite=lambda i, pre=pre, inf=inf, ln=ln: (pre.index(i, I.bounds) if lt(i, ln, I.bounds) else (inf(sp.expand(i - ln)) if le(ln, i, I.bounds) else _undecidable(i, ln))))
+    if x.vec is None:
+        return x
     if x.mut_place is not None or y.mut_place is not None:
         return IterV(Vec(x.vec.segs + y.vec.segs), by_ref_mut=ChainPlace(I, [x, y]))
     return IterV(Vec(x.vec.segs + y.vec.segs))
+
+
+def _undecidable(i, ln):
+    raise Unanalysable(f"element {i} of a chained iterator: cannot decide whether it lies in the finite prefix of length {ln}")
 
 
 class ChainPlace(Ref):
